@@ -44,7 +44,7 @@ lane() {
                 mkdir -p "/verif/work/mutants/$name"
                 r=$(ls "$L/replays"/*.json 2>/dev/null | head -1); [ -n "$r" ] && cp "$r" "/verif/work/mutants/$name/$id.json"
             fi
-            js="$js{\"check\":\"$id\",\"exit\":$rc,\"wall_s\":$(echo "$t1 - $t0" | bc),\"signature\":\"$sig\"},"
+            js="$js{\"check\":\"$id\",\"exit\":$rc,\"wall_s\":$(echo "$t1 $t0" | awk '{printf "%.3f", $1 - $2}'),\"signature\":\"$sig\"},"
         done
         printf '{"seed":"%s","tier":"%s","results":[%s]}\n' "$name" "$TIER" "${js%,}" > "/verif/work/mutants/$name.json"
         if [ -n "$caught" ]; then echo "$name caught_by=$(echo $caught | tr ' ' ',')"; else echo "$name missed"; fi
